@@ -55,6 +55,7 @@ namespace Givaro {
     template <class Domain>
     inline typename Poly1Dom<Domain,Dense>::Rep& Poly1Dom<Domain,Dense>::sqr( Rep& R, const Rep& P) const
     {
+        if (&R == &P) { Rep T; sqr(T, P); return assign(R, T); } // R may be the same object as P
         const size_t sP = P.size();
         if (sP ==0) { R.resize(0); return R; }
         size_t sR = sP<<1;
@@ -67,6 +68,7 @@ namespace Givaro {
     template <class Domain>
     inline typename Poly1Dom<Domain,Dense>::Rep& Poly1Dom<Domain,Dense>::mul( Rep& R, const Rep& P, const Rep& Q ) const
     {
+        if (&R == &P || &R == &Q) { Rep T; mul(T, P, Q); return assign(R, T); } // R may be the same object as P or Q
         size_t sR = R.size();
         size_t sP = P.size();
         size_t sQ = Q.size();
@@ -86,6 +88,7 @@ namespace Givaro {
     template <class Domain>
     inline typename Poly1Dom<Domain,Dense>::Rep& Poly1Dom<Domain,Dense>::mul( Rep& R, const Rep& P, const Rep& Q, const Degree& Val, const Degree& deg) const
     {
+        if (&R == &P || &R == &Q) { Rep T; mul(T, P, Q, Val, deg); return assign(R, T); } // R may be the same object as P or Q
         size_t sR = R.size();
         size_t sP = P.size();
         size_t sQ = Q.size();
